@@ -480,8 +480,20 @@ func TestLaws(t *testing.T) {
 	if err != nil {
 		t.Fatal(err)
 	}
+	armoured := map[string]bool{}
 	for _, o := range objs {
 		seeds = append(seeds, Seed{"std:" + o.Kind, o.DER})
+		// the armour dimension (X509ParseList.tla) for the byte-level mutations: one object of every kind as RFC 7468 text, so that
+		// truncations, deletions and insertions produce inputs that only begin like a block
+		if kind := map[string]string{"ec": "sec1"}[o.Kind]; !armoured[o.Kind] {
+			if kind == "" {
+				kind = o.Kind
+			}
+			armoured[o.Kind] = true
+			if b, err := Render("pem", kind, o.DER, r); err == nil {
+				seeds = append(seeds, Seed{"pem:" + o.Kind, b})
+			}
+		}
 	}
 	// the key kinds the standard library's encoders do not issue (secp192r1, DSA, three-prime RSA), in every container
 	for _, kind := range []string{"p192", "dsa", "rsa3"} {
@@ -579,6 +591,7 @@ func TestReplayOne(t *testing.T) {
 			Before   string   `json:"before_hex"` // kind purity: the input parsed before this one
 			Case     *KeyCase `json:"case"`       // kind keycase: the case of X509ParseKeys.tla
 			Plan     *FUPlan  `json:"plan"`       // kind firstuse: the plan (run again in fresh processes)
+			LCase    *LCase   `json:"lcase"`      // kind listcase: the case of X509ParseList.tla
 		} `json:"replay"`
 	}
 	if err := json.Unmarshal(raw, &rp); err != nil {
@@ -600,7 +613,7 @@ func TestReplayOne(t *testing.T) {
 		rep.Replayed = n
 		return
 	}
-	e := EntryByName(rp.Replay.Entry)
+	e := AnyEntryByName(rp.Replay.Entry)
 	if e == nil {
 		t.Fatalf("unknown entry %q", rp.Replay.Entry)
 	}
@@ -611,6 +624,11 @@ func TestReplayOne(t *testing.T) {
 	done := make(chan struct{})
 	go func() {
 		defer close(done)
+		if rp.Replay.Kind == "listcase" && rp.Replay.LCase != nil {
+			_, cls := k.ListCase(*rp.Replay.LCase, in, sl.s[0])
+			rep.Eval(e.Name + "/" + cls)
+			return
+		}
 		o := k.Laws(e, in, sl.s[0])
 		rep.Eval(e.Name + "/" + o.Class())
 		switch rp.Replay.Kind {
